@@ -13,7 +13,30 @@ import (
 
 // Rules added after independently seeded changes were missed by the first rule sets (DESIGN.md section 11).
 
+// wrapRun appends extra rules to a rule set owned by another file (keeps the hook out of files that builders re-deliver).
+func wrapRun(prop string, extra func(c *core.Ctx)) {
+	rs := Registry[prop]
+	if rs == nil {
+		return
+	}
+	orig := rs.Run
+	rs.Run = func(c *core.Ctx) {
+		orig(c)
+		extra(c)
+	}
+}
+
 func init() {
+	wrapRun("C03", func(c *core.Ctx) {
+		if c.CountRule("K10") == 0 {
+			c03NoReadRecursion(c)
+			c.Floor("K10", 8, "Read methods of the readers, the ingester and the transform")
+		}
+		if c.CountRule("K11") == 0 {
+			c03NoStationaryLoop(c)
+			c.Floor("K11", 10, "loops whose exit condition is carried in registers")
+		}
+	})
 	control(Control{ID: "c13-pooled-buffer-kept", Prop: "C13", File: "extensions/omniv21/fileformat/edi/reader2.go",
 		Old: "func (r *NonValidatingReader) Read() (RawSeg, error) {\n", New: "var scanBufPool sync.Pool\n\nfunc (r *NonValidatingReader) recycleBuf() {\n\tscanBufPool.Put(r.rawSeg.Elems)\n}\n\nfunc (r *NonValidatingReader) Read() (RawSeg, error) {\n",
 		Rule: "R13d", Substr: "recycleBuf", Why: "an object is handed to a pool while the reader keeps referencing it"})
@@ -37,6 +60,11 @@ func init() {
 	control(Control{ID: "c03-loop-ignores-source-error", Prop: "C03", File: "extensions/omniv21/fileformat/fixedlength/reader.go",
 		Old: "\t\tswitch err {\n\t\tcase nil:\n\t\t\tr.line++\n\t\tdefault:\n\t\t\treturn nil, err\n\t\t}", New: "\t\tswitch err {\n\t\tcase nil:\n\t\t\tr.line++\n\t\tcase io.EOF:\n\t\t\treturn nil, err\n\t\t}",
 		Rule: "K9", Substr: "readLine", Why: "a persistent read error keeps the line loop spinning"})
+	control(Control{ID: "c03-read-recurses", Prop: "C03", File: "extensions/omniv21/fileformat/csv/reader.go",
+		Old: "\t\tgoto read\n", New: "\t\treturn r.Read()\n", Rule: "K10", Substr: "csv.reader).Read", Why: "one stack frame per filtered-out record"})
+	control(Control{ID: "c03-stationary-loop", Prop: "C03", File: "idr/navigator.go",
+		Old: "\tfor ; n != nil && n.Type == AttributeNode; n = n.NextSibling {", New: "\tfor ; n != nil && n.Type == AttributeNode; n = n {",
+		Rule: "K11", Substr: "MoveToChild", Why: "loop variable never advances"})
 	control(Control{ID: "c15-vm-dirty-after-error", Prop: "C15", File: "extensions/omniv21/customfuncs/javascript.go",
 		Old: "\t\t\tfor arg := range args {\n\t\t\t\t_ = vm.GlobalObject().Delete(arg)\n\t\t\t}", New: "\t\t\t_ = vm.GlobalObject().Delete(argNameNode)",
 		Rule: "R15g", Substr: "execProgram", Why: "script arguments of an earlier transform stay visible in the pooled VM"})
@@ -634,4 +662,175 @@ func blockOnCycle(b *ssa.BasicBlock) bool {
 		return false
 	}
 	return walk(b)
+}
+
+// ---------------------------------------------------------------- K10 / K11 (C03): no input-proportional recursion, no
+// stationary loop (added after seeds C03-4, C03-6)
+
+// c03NoReadRecursion (K10): a Read method of a format reader / stream reader must not (statically, within the
+// repository) reach itself: skipping a unit by calling Read again adds a stack frame per skipped unit, so a long run of
+// filtered-out records overflows the stack (Go has no tail calls). Recursion bounded by the schema (declaration depth)
+// lives in other functions and is not touched by this rule.
+func c03NoReadRecursion(c *core.Ctx) {
+	n := 0
+	for _, f := range c.RepoFunctions() {
+		p := core.FuncPkg(f)
+		if core.IsCLIOrSample(p) || f.Signature.Recv() == nil || f.Name() != "Read" || f.Parent() != nil {
+			continue
+		}
+		if !(strings.Contains(p.Path(), "/fileformat/") || strings.HasSuffix(p.Path(), "/idr") || strings.HasSuffix(p.Path(), "/omniv21") || p.Path() == core.Mod) {
+			continue
+		}
+		n++
+		key := core.FuncKey(f) + " is not self-recursive"
+		rec := reachesStatic(f, f, 0, map[*ssa.Function]bool{})
+		c.Check(!rec, "K10", key, f.Pos(), "Read does not reach itself through static calls", "Read calls itself (directly or through helpers): every unit skipped this way adds a stack frame, so the depth grows with the input and a long run of skipped units ends in a fatal stack overflow")
+	}
+	if n == 0 {
+		c.Unresolved("K10", "Read methods", "none found")
+	}
+}
+
+// c03NoStationaryLoop (K11): in library code on the load/run path, no loop may have a cycle path along which nothing
+// changes: every loop-header phi that feeds an exit condition of the loop keeps its value, and the path contains no
+// store, map update, channel operation or call other than to a short list of pure functions. Entering such a path once
+// means looping forever (e.g. a `continue` placed before the statement that advances the scanned slice).
+func c03NoStationaryLoop(c *core.Ctx) {
+	n := 0
+	for _, f := range c.RepoFunctions() {
+		if core.IsCLIOrSample(core.FuncPkg(f)) {
+			continue
+		}
+		for _, h := range f.Blocks {
+			// loop header: a block with a predecessor it dominates
+			isHeader := false
+			for _, p := range h.Preds {
+				if h.Dominates(p) {
+					isHeader = true
+				}
+			}
+			if !isHeader {
+				continue
+			}
+			// loop body = blocks dominated by h that can reach h
+			inLoop := map[*ssa.BasicBlock]bool{}
+			for _, b := range f.Blocks {
+				if h.Dominates(b) && reachableFrom(b, h) && (b == h || reachesWithin(b, h)) {
+					inLoop[b] = true
+				}
+			}
+			// exit conditions and the header phis feeding them
+			feeds := map[*ssa.Phi]bool{}
+			for b := range inLoop {
+				ifi, ok := b.Instrs[len(b.Instrs)-1].(*ssa.If)
+				if !ok {
+					continue
+				}
+				if inLoop[b.Succs[0]] && inLoop[b.Succs[1]] {
+					continue
+				}
+				for _, in := range h.Instrs {
+					if phi, ok := in.(*ssa.Phi); ok && dependsOn(ifi.Cond, phi, 0) {
+						feeds[phi] = true
+					}
+				}
+			}
+			if len(feeds) == 0 {
+				continue // exit does not depend on loop-carried registers (e.g. depends on calls/loads): not decidable here
+			}
+			n++
+			key := core.FuncKey(f) + " loop makes progress"
+			// search a cycle path h -> ... -> pred(h) with no effect and all feeding phis unchanged on that back edge
+			stationary := token.NoPos
+			var dfs func(b *ssa.BasicBlock, seen map[*ssa.BasicBlock]bool)
+			dfs = func(b *ssa.BasicBlock, seen map[*ssa.BasicBlock]bool) {
+				if stationary.IsValid() {
+					return
+				}
+				if blockHasEffect(b) {
+					return
+				}
+				for _, s := range b.Succs {
+					if s == h {
+						// back edge from b: do all feeding phis keep their value?
+						idx := -1
+						for i, p := range h.Preds {
+							if p == b {
+								idx = i
+							}
+						}
+						same := idx >= 0
+						for phi := range feeds {
+							if idx < 0 || phi.Edges[idx] != ssa.Value(phi) {
+								same = false
+							}
+						}
+						if same {
+							stationary = core.InstrPos(b.Instrs[len(b.Instrs)-1])
+							return
+						}
+						continue
+					}
+					if inLoop[s] && !seen[s] {
+						seen[s] = true
+						dfs(s, seen)
+					}
+				}
+			}
+			dfs(h, map[*ssa.BasicBlock]bool{h: true})
+			c.Check(!stationary.IsValid(), "K11", key, h.Instrs[0].Pos(), "no effect-free cycle path leaves the loop's exit-relevant variables unchanged",
+				"the loop has a cycle path on which nothing changes (the variables its exit condition depends on keep their values and nothing is stored or called): once taken, the loop never ends")
+		}
+	}
+	if n == 0 {
+		c.Unresolved("K11", "loops with register-carried exit conditions", "none found")
+	}
+}
+
+func reachesWithin(from, to *ssa.BasicBlock) bool {
+	for _, s := range from.Succs {
+		if s == to || reachableFrom(s, to) {
+			return true
+		}
+	}
+	return false
+}
+
+func blockHasEffect(b *ssa.BasicBlock) bool {
+	for _, in := range b.Instrs {
+		switch x := in.(type) {
+		case *ssa.Store:
+			if _, isAlloc := x.Addr.(*ssa.Alloc); !isAlloc {
+				return true
+			}
+			return true
+		case *ssa.MapUpdate, *ssa.Send, *ssa.Go, *ssa.Defer, *ssa.Panic, *ssa.Return, *ssa.Next:
+			return true
+		case *ssa.UnOp:
+			if x.Op == token.ARROW {
+				return true
+			}
+		case ssa.CallInstruction:
+			if bn, ok := x.Common().Value.(*ssa.Builtin); ok {
+				switch bn.Name() {
+				case "len", "cap", "min", "max":
+					continue
+				}
+				return true
+			}
+			o := core.CalleeObj(x)
+			if o == nil || o.Pkg() == nil {
+				return true
+			}
+			switch o.Pkg().Path() {
+			case "unicode/utf8", "unicode", "strings", "bytes", "math":
+				if strings.Contains(core.FuncName(o), ".") {
+					return true // methods (Builder.Write…) have effects
+				}
+				continue
+			}
+			return true
+		}
+	}
+	return false
 }
